@@ -111,6 +111,23 @@ pub fn run(ctx: &Ctx) {
     ck!("ff.ROOT_OF_UNITY.order", rou.pow(&U::pow2(s_exp as usize)) == Zl::ONE && rou.pow(&U::pow2(s_exp as usize - 1)) != Zl::ONE, "ROOT_OF_UNITY has order exactly 2^S");
     ck!("ff.ROOT_OF_UNITY_INV", rou.mul(&sc_of(&<Scalar as PrimeField>::ROOT_OF_UNITY_INV)) == Zl::ONE, "ROOT_OF_UNITY * ROOT_OF_UNITY_INV = 1");
     ck!("ff.DELTA", sc_of(&<Scalar as PrimeField>::DELTA) == g.pow(&U::pow2(s_exp as usize)), "DELTA = g^(2^S)");
+    // every advertised constant is a *canonical* scalar (the invariant every Scalar carries): an unreduced
+    // representative of the right residue passes the multiplicative relations above, and breaks ==, to_repr/from_repr,
+    // is_odd, + and -
+    for (name, c) in [
+        ("TWO_INV", <Scalar as PrimeField>::TWO_INV),
+        ("MULTIPLICATIVE_GENERATOR", <Scalar as PrimeField>::MULTIPLICATIVE_GENERATOR),
+        ("ROOT_OF_UNITY", <Scalar as PrimeField>::ROOT_OF_UNITY),
+        ("ROOT_OF_UNITY_INV", <Scalar as PrimeField>::ROOT_OF_UNITY_INV),
+        ("DELTA", <Scalar as PrimeField>::DELTA),
+        ("ZERO", <Scalar as Field>::ZERO),
+        ("ONE", <Scalar as Field>::ONE),
+    ] {
+        let int = U::from_le(c.as_bytes());
+        let rt: Option<Scalar> = <Scalar as PrimeField>::from_repr(<Scalar as PrimeField>::to_repr(&c)).into();
+        ck!(&format!("ff.{}.canonical", name), int < lm && rt == Some(c) && bool::from(<Scalar as PrimeField>::is_odd(&c)) == int.bit(0), "{} is not a canonical scalar (bytes {})", name, hex(c.as_bytes()));
+    }
+    ck!("ff.TWO_INV.sum", <Scalar as PrimeField>::TWO_INV + <Scalar as PrimeField>::TWO_INV == <Scalar as Field>::ONE, "TWO_INV + TWO_INV = 1");
     ck!("ff.ZERO_ONE", sc_of(&<Scalar as Field>::ZERO) == Zl::ZERO && sc_of(&<Scalar as Field>::ONE) == Zl::ONE, "ZERO / ONE");
     {
         let bits = <Scalar as PrimeFieldBits>::char_le_bits();
@@ -364,7 +381,8 @@ pub fn run(ctx: &Ctx) {
                     let sum3: SubgroupPoint = [sa, sb, sa].iter().sum();
                     let sum3o: SubgroupPoint = vec![sa, sb, sa].into_iter().sum();
                     let want3 = a.pt.add(&b.pt).add(&a.pt).compress();
-                    if enc(&sum3) != want3 || enc(&sum3o) != want3 {
+                    let sum3f: SubgroupPoint = [sa, sb, sa].iter().filter(|_| std::hint::black_box(true)).sum();
+                    if enc(&sum3) != want3 || enc(&sum3o) != want3 || enc(&sum3f) != want3 {
                         bad.push("Sum");
                     }
                     let empty: SubgroupPoint = Vec::<SubgroupPoint>::new().iter().sum();
